@@ -70,11 +70,14 @@ func checkInstalledHMACConfigured(c *Ctx, rule string) {
 	p := c.P
 	n := 0
 	for _, fn := range p.FuncsInPkg("app") {
+		if fn.Parent() == nil {
+			fn = p.View(fn) // the per-route construction may live in a helper of the package
+		}
 		for _, b := range fn.Blocks {
 			for _, ins := range b.Instrs {
 				mu, ok := ins.(*ssa.MapUpdate)
-				if !ok {
-					continue
+				if !ok || len(p.InlinedFrom(mu)) > 0 {
+					continue // (an install expanded from a helper is decided in that helper's own view)
 				}
 				mt, ok := mu.Map.Type().Underlying().(*types.Map)
 				if !ok || namedName(mt.Elem()) != "HMACAuth" {
